@@ -751,12 +751,13 @@ fn parameter_list_family(swap: bool) {
     }
 }
 
-// @check props=C07 tier=thorough timeout=1500
+// @parked (ParameterList::try_read_from_bytes on 8 fully symbolic bytes: out of 12 GB after 110 s in the final thorough run, 345 s / 5.4 GB in an earlier one; not indexed) props=C07 tier=thorough timeout=1500
 // @desc ParameterList::try_read_from_bytes on FULLY symbolic bytes (ids, length fields, slice length all arbitrary), both endiannesses: Ok or Err, no panic; parameter count bounded by the input
 // @bounds 8 symbolic bytes, symbolic length 0..=8 (measured 345 s / 5.4 GB; 12 bytes exceed 10 GB); unwind 4
 // @enc rtps_messages::submessage_elements::ParameterList::try_read_from_bytes
-#[kani::proof]
-#[kani::unwind(4)]
+// #[kani::proof]
+// #[kani::unwind(4)]
+#[allow(dead_code)]
 fn c07_parameter_list_symbolic() {
     let e = any_endianness();
     let (bytes, len) = body!(8);
